@@ -9,6 +9,7 @@
  * pwrite() is defined here too and mirrors every successful write into the
  * heap copy of the same file (matched by device and inode). */
 #define _GNU_SOURCE
+#include <stdio.h>
 #include <stdlib.h>
 #include <string.h>
 #include <sys/mman.h>
@@ -23,10 +24,27 @@ void *verif_mmap(void *addr, size_t len, int prot, int flags, int fd, off_t off)
 static struct { dev_t dev; ino_t ino; unsigned char *buf; size_t len; off_t off; } maps[MAXMAP];
 static int nmaps;
 
+/* VERIF_SHORT_PWRITE=k:how -- the k-th pwrite() of more than one byte completes only partly (how: 1 = one byte,
+ * 2 = half, 3 = all but one byte), as POSIX allows */
+static size_t
+maybe_short(size_t n)
+{
+	static int cnt, k = -1, how;
+	if (k < 0) {
+		const char *e = getenv("VERIF_SHORT_PWRITE");
+		k = 0;
+		if (e)
+			sscanf(e, "%d:%d", &k, &how);
+	}
+	if (k > 0 && n > 1 && ++cnt == k)
+		n = how == 1 ? 1 : (how == 2 ? n / 2 : n - 1);
+	return n;
+}
+
 ssize_t
 pwrite(int fd, const void *src, size_t n, off_t off)
 {
-	ssize_t w = (ssize_t) syscall(SYS_pwrite64, fd, src, n, off);
+	ssize_t w = (ssize_t) syscall(SYS_pwrite64, fd, src, maybe_short(n), off);
 	struct stat st;
 	if (w > 0 && fstat(fd, &st) == 0) {
 		for (int i = 0; i < nmaps; i++) {
